@@ -75,7 +75,9 @@ fn gen_first_model(r: &mut Rng, o: &FullOpts, ids: &mut usize) -> SModel {
                     atoms.push(SAtom { het: name == "HOH" || name == "MG", serial: if o.in_range { serial } else if r.chance(1, 30) { 100_000 } else { serial }, id: ids.to_string(), name: nm, x, y, z, occ, b: bf,
                         el: 0, charge: if r.chance(1, 8) { r.range(-9, 9) } else { 0 }, atf });
                 }
-                confs.push(SConf { name: name.clone(), alt, modif: modif.clone(), atoms });
+                // alternates of one residue need not be the same kind of residue (SER as A, THR as B)
+                let cname = if alt.as_deref() == Some("B") && r.chance(1, 3) { loop { let n2 = r.pick(RESN).to_string(); if n2 != name { break n2; } } } else { name.clone() };
+                confs.push(SConf { name: cname, alt, modif: modif.clone(), atoms });
             }
             residues.push(SRes { serial: num, icode, confs });
         }
